@@ -918,6 +918,10 @@ static void _auth(xmpp_conn_t *conn)
 
 static void _stream_negotiation_success(xmpp_conn_t *conn)
 {
+    /* a client or component connection is reported as established only once */
+    if (!conn->is_raw && conn->stream_negotiation_completed)
+        return;
+
     tls_clear_password_cache(conn);
     conn->stream_negotiation_completed = 1;
     /* call connection handler */
